@@ -21,6 +21,12 @@ Step(e) ==
       [] e.ev = "Special" ->
            IF ~e.valid /\ e.hex = -1 /\ e.r = -1 /\ e.g = -1 /\ e.b = -1 /\ e.css = <<>> /\ e.tcdefault THEN {}
            ELSE {Dev("C16.special", e.which, <<e.valid, e.hex, e.r>>)}
+      [] e.ev = "Img16" ->         \* opaque 16-bit-per-channel sources: each channel is reduced to its high byte
+           LET want == (e.r \div 256) * 65536 + (e.g \div 256) * 256 + (e.b \div 256)
+               grey == (e.y \div 256) * 65793
+           IN (IF e.rgba64 = want THEN {} ELSE {Dev("C16.conversion", "FromImageColor_RGBA64", <<e.r, e.g, e.b, e.rgba64>>)})
+              \cup (IF e.nrgba64 = want THEN {} ELSE {Dev("C16.conversion", "FromImageColor_NRGBA64", <<e.r, e.g, e.b, e.nrgba64>>)})
+              \cup (IF e.gray16 = grey THEN {} ELSE {Dev("C16.conversion", "FromImageColor_Gray16", <<e.y, e.gray16>>)})
       [] e.ev = "Find" -> {Dev("C16.findcolor", p, <<e.c, e.kind, e.idx>>) : p \in FindWrong(e, 5000)}
       [] OTHER -> {}
 
